@@ -80,6 +80,10 @@ if __name__ == '__main__':
     import time
     t0 = time.time()
     n, probs = run('--quick' in sys.argv)
+    if '--json' in sys.argv:
+        import json
+        print('JSON ' + json.dumps({'problems': probs, 'info': {'cases': n, 'over_approximations': list(getattr(run, 'imprecise', []))[:10]}}))
+        sys.exit(0 if not probs else 3)
     for p in probs:
         print('  PROBLEM:', p[:600])
     for p in getattr(run, 'imprecise', []):
